@@ -426,3 +426,20 @@ B("M2.merge_fixpoint", ["C09", "C10", "C01"], "merge.rs", "bounded_merge_recursi
   "1 <= result length <= input length",
   "every merge table over 3 abstract ids (4^9 = 262,144 tables) x 5 id sequences x lengths 3 and 4; Kani on the abstract item type did not finish in 800 s; "
   "the unbounded length / termination clauses are M1, M2 (Verus)")
+
+FB = "buffer/fragment_buffer.rs"
+B("C03.rows_dash_bar_plus", ["C03"], FB, "bounded_dash_bar_plus_rows",
+  "ASCII_PROPERTIES rows of '-', '|', '+' through Property::fragments / From<PropertyBuffer> for FragmentBuffer / From<Span> for FragmentBuffer",
+  "strokes of the centre cell = the specified strokes: '-' k-o; '|' c-w plus a half stub towards an adjacent '-'; '+' a half segment towards each "
+  "neighbour that points at it, text when none does",
+  "exhaustive: 3 centre characters x all 4^8 = 65,536 neighbour assignments over {space, -, |, +} (the tables are behind once_cell::Lazy: Kani ICE)",
+  file="map/ascii_map.rs", timeout=900)
+B("S7.no_duplicate_fragment", ["C09"], FB, "bounded_no_duplicate_fragment_in_cell", "FragmentBuffer::add_fragment_to_cell / add_fragment_span_to_cell",
+  "an equal fragment span is not stored twice in a cell", "1 scenario (BTreeMap glue)")
+
+B("RN.renderers", ["C11", "C05", "C14", "C02"], FRAG, "bounded_renderers", "From<Line|MarkerLine|Circle|Rect|Arc|Polygon> for Node",
+  "numeric attributes are exactly the fields (x1,y1,x2,y2 / cx,cy,r / x,y,width,height,rx / path d / points); classes follow the flags and markers",
+  "5^3 coordinate triples x 2 flag values, 7 shapes each (sauron Node construction is beyond Kani)")
+B("sink.text_node", ["C02", "C08", "C04"], FRAG, "bounded_text_node", "From<Text> for Node / From<CellText> for Node / escape_html_text",
+  "a text element has exactly x, y and one text child = concatenation of replace_html_char over the characters",
+  "all strings of length 1..3 over {<,&,>,\",',a,e-acute,wide CJK,NUL,U+0001,space} (1463 strings)")
